@@ -2382,6 +2382,13 @@ fn mutations_self_tested() -> serde_json::Value {
       {"mutation": "`set_count >= batch_threshold` → `>`", "class": "3 equality", "before": "caught (5 ops)", "after": "caught (74 ops)"},
       {"mutation": "try_fast_set: value length added with wrapping_add", "class": "5 capacity thresholds", "before": "missed (exit 0)", "after": "C04:crash:huge-value-length (attempt to add with overflow) on `*3\\r\\n$3\\r\\nSET\\r\\nX$1\\r\\nk\\r\\n$18446744073709551615\\r\\nab`"},
       {"mutation": "PerformanceConfig::validate forgets `max_size < read_size`", "class": "4 configuration / 1 entry paths (server_optimized.rs)", "before": "missed (exit 0)", "after": "C04:config:invalid-accepted:invalid:max-below-read (the real server starts)"},
+      {"mutation": "SESSION 4, on the REPAIRED code (clone of fixes-conn-s4): try_fast_get without the LF test behind the CR of the length line", "class": "2 input alphabet / 3 equality (one byte off)", "before": "n/a (the recogniser corpus did not exist; the random look-alike generator never puts `$` at offset 13)", "after": "82 ops disagree (recogniser corpus: `$1\\rXk`); with the malformed oracle of the corpus: C04:malformed-accepted:near-wellformed"},
+      {"mutation": "repaired code: try_fast_set takes keys that are not UTF-8", "class": "2 input alphabet", "before": "n/a", "after": "72 ops disagree (non-UTF-8 keys through SET / get / Get: the recognised and the generic spelling name different entries); no property-level failing input: sent alone the commands take the same paths"},
+      {"mutation": "repaired code: collect_get_keys without the LF test", "class": "3 equality", "before": "n/a", "after": "46 ops disagree (corpus frames inside a run of GETs, gate open)"},
+      {"mutation": "repaired code: SETs collected below batch_threshold are dropped again", "class": "5 capacity thresholds", "before": "n/a", "after": "C04:reply-count:missing-reply (64 commands, 63 replies), C04:reply-withheld:until-more-input, C04:overflow:earlier-replies-lost"},
+      {"mutation": "repaired code: GETs collected below batch_threshold are answered in reverse order", "class": "7 history shapes / 9 observations", "before": "n/a", "after": "C04:reply-differs-from-alone, C04:write:not-a-prefix-of-the-reply-stream, C04:malformed-alters-earlier-replies"},
+      {"mutation": "repaired code: try_fast_get takes a frame one byte short of complete (`+ 1 <`)", "class": "3 equality", "before": "n/a", "after": "C04:crash:well-formed-stream (split_to out of bounds 21 <= 20) with the pipeline and the cut"},
+      {"mutation": "repaired code: the fast path is entered during MULTI", "class": "8 connection state", "before": "n/a", "after": "507 ops disagree (SET inside MULTI answered +OK instead of QUEUED); no property-level failing input from the twin oracle (sent alone the command takes the same path): the reference executor of the model is the judge"},
       {"mutation": "run(): a failed flush is ignored", "class": "6 fault kinds", "before": "missed (exit 0)", "after": "model disagreement on 152 W ops (number of reads made after the failed flush); no property-level failing input: the bytes are still a prefix of the reply stream"}
     ])
 }
